@@ -64,6 +64,7 @@ class Check:
         self.functions_analysed.update(quals)
 
     def ok(self, rule: str, construct: str, fact: str, nontrivial: bool = True) -> None:
+        fact = fact if isinstance(fact, str) else str(fact)
         self.obligations.append({"rule": rule, "construct": construct, "verdict": "discharged", "fact": fact})
         self.rule_counts[rule] = self.rule_counts.get(rule, 0) + 1
         if nontrivial:
@@ -71,6 +72,8 @@ class Check:
 
     def bad(self, rule: str, construct: str, what: str, detail: str = "", loc: str = "") -> None:
         """what: normalised offending construct (no line numbers) – part of the finding key."""
+        what = what if isinstance(what, str) else str(what)
+        detail = detail if isinstance(detail, str) else str(detail)
         self.obligations.append({"rule": rule, "construct": construct, "verdict": "VIOLATED", "fact": what, "detail": detail, "location": loc})
         self.rule_counts[rule] = self.rule_counts.get(rule, 0) + 1
         self.rule_nontrivial[rule] = self.rule_nontrivial.get(rule, 0) + 1
